@@ -261,8 +261,9 @@ def gen_clean_history(rnd, sid, feat=None):
             elif x < 0.5 and h.g.dd_info:
                 dd = rnd.choice(sorted(h.g.dd_info)); h.add(ec.Step('rm', 'step rm %s' % hx(dd), path=dd))
             elif x < 0.62:
-                es = [e for e in ne if e.rsp]
-                if es: e = rnd.choice(es); h.add(ec.Step('edit', 'step edit %s %s' % (hx(e.rsp), hx('leftover')), path=e.rsp))
+                # files a killed command leaves behind: its response file, the depfile of a deps= statement
+                es = [(e, e.rsp) for e in ne if e.rsp] + [(e, e.depfile) for e in ne if e.depfile and e.deps]
+                if es: e, f = rnd.choice(es); h.add(ec.Step('edit', 'step edit %s %s' % (hx(f), hx('leftover')), path=f))
             elif x < 0.9:
                 if mutate_manifest(rnd, h) and rnd.random() < 0.6: full_build(h, rnd)
             elif x < 0.93:
